@@ -49,7 +49,7 @@ def run_cvc5(smt2: str, timeout_ms: int):
         path = f.name
     try:
         p = subprocess.run(
-            [exe, "--lang", "smt2", f"--tlimit={timeout_ms}", path],
+            [exe, "--lang", "smt2", f"--tlimit={timeout_ms}", *(["--strings-exp"] if "str.in_re" in txt else []), path],
             capture_output=True,
             text=True,
             timeout=timeout_ms / 1000 + 5,
